@@ -159,9 +159,12 @@ def audit_binning(rec: core.Recorder, b, *, op: str, detail=None, deep: bool = T
         else:
             # == must look at the edges: same number of bins elsewhere is another binning, same edges is the same binning
             span = float(bins[-1, 1] - bins[0, 0])
-            moved = type(s)(bins + span, includes_right_edge=bool(s.includes_right_edge))
+            try:
+                moved = type(s)(bins + span, includes_right_edge=bool(s.includes_right_edge))
+            except ValueError:
+                moved = None  # bins a few ulps wide: the shifted copy is not representable (rounds to non-rising edges)
             same = type(s)(bins.copy(), includes_right_edge=bool(s.includes_right_edge))
-            if (s == moved) or (moved == s):
+            if moved is not None and ((s == moved) or (moved == s)):
                 fail("binnings with the same number of bins but other edges compare ==", ["eq"])
             if not (s == same):
                 fail("binnings with identical edges do not compare ==", ["eq"])
